@@ -211,6 +211,7 @@ pub fn exec(reg: &Registry, st: &mut State, line: &str) -> Outcome {
                         Ok((n, v)) => {
                             let mut o = out(format!("ok {} {}", n, show_val(&shape, &v)));
                             check_val(&mut o, &shape, &v, true);
+                            check_canonical(&mut o, &shape, &v, &bytes);
                             o
                         }
                         Err(e) => out(e),
@@ -249,6 +250,7 @@ pub fn exec(reg: &Registry, st: &mut State, line: &str) -> Outcome {
                         Ok(v) => {
                             let mut o = out(format!("ok {}", show_val(&shape, &v)));
                             check_val(&mut o, &shape, &v, op == "owned");
+                            check_canonical(&mut o, &shape, &v, &bytes);
                             o
                         }
                         Err(e) => out(e),
@@ -265,6 +267,36 @@ pub fn exec(reg: &Registry, st: &mut State, line: &str) -> Outcome {
 fn check_val(o: &mut Outcome, shape: &Shape, v: &crate::sx::Val, owned: bool) {
     if !valid_bits(shape, v, owned) {
         o.fails.push(("invalid_value_admitted".into(), format!("produced {}", show_val(shape, v))));
+    }
+}
+
+/// Shapes whose every accepted byte string is the canonical encoding of the value it parses to
+/// (no offset tables, no sorted containers): there, accepting bytes that differ from the value's
+/// encoding means some byte (e.g. an unknown enum discriminant) was misread.
+fn canonical_only(s: &Shape) -> bool {
+    match s {
+        Shape::Fixed(_) | Shape::List(..) | Shape::Str(_) | Shape::Rem => true,
+        Shape::Set(..) | Shape::Map(..) | Shape::Ulist(_) | Shape::Umap(..) => false,
+        Shape::Struct(_, fs) => fs.iter().all(canonical_only),
+        Shape::Enum(vs) => vs.iter().all(|(_, p)| p.as_ref().map(canonical_only).unwrap_or(true)),
+        Shape::Disc(_, i) => canonical_only(i),
+    }
+}
+
+fn check_canonical(o: &mut Outcome, shape: &Shape, v: &crate::sx::Val, bytes: &[u8]) {
+    // `AccountDiscriminant::get_ptr/owned` skip the prefix without comparing it (the comparison is
+    // `check_discriminant` / `validate_account_info`), so only the inner value is compared here.
+    if let Shape::Disc(d, inner) = shape {
+        if bytes.len() >= d.len() {
+            check_canonical(o, inner, v, &bytes[d.len()..]);
+        }
+        return;
+    }
+    if canonical_only(shape) {
+        let (rb, _) = ref_bytes(shape, v);
+        if rb.len() > bytes.len() || rb != bytes[..rb.len()] {
+            o.fails.push(("accepted_bytes_differ_from_value".into(), format!("{} parsed to {} whose encoding is {}", hex(bytes), show_val(shape, v), hex(&rb))));
+        }
     }
 }
 
